@@ -208,6 +208,18 @@ CHECKS = {
             "type, sender, participant (absent when absent) and call id must be sent down. Four seeded mutants are caught.",
             "Trusted: our reading of the required answer shapes. Kinds x selections complete, values sampled.",
             "DESIGN.md 4/C07"),
+    "C08": ("exploration",
+            "runtime monitor: reference registry (dict id -> pending request) run in lock-step with request/reply histories through a YowInterfaceLayer subclass on top of the full protocol group; logged callbacks compared with the prediction after every delivery",
+            "12 000 (quick) / 300 000 (thorough) histories: up to 8 requests of 18 kinds (ping, last seen, picture get/set, status "
+            "set/get, privacy, all group operations, contact sync, media upload request) issued through _sendIq with unique "
+            "closures, then deliveries drawn from {result of the documented shape, error, duplicate of an answered reply, "
+            "unknown id, non-reply stanza carrying a pending id, reply to a request of another stack instance} in random order, "
+            "with and without the axolotl layers. Exactly the predicted callback must fire, once, with the original request "
+            "object and the matching reply; anything else must fire nothing. Library-internal requests (key fetch incl. "
+            "error/unknown/duplicate replies, key upload) are judged by their effect (message sent once / keys marked sent). "
+            "Four seeded mutants (shared registry, both callbacks, entry not removed, original not attached) are caught.",
+            "Trusted: the reference registry and the documented reply shapes of vf/catalogue.py. Histories sampled.",
+            "DESIGN.md 4/C08"),
 }
 
 NOT_BUILT = "check not built yet in this session (planned, see DESIGN.md section 4)"
